@@ -78,6 +78,16 @@ CHECKS = {
         "note": "tolerance 1e-8 cycles with 30*F0*span <= 4e6 cycles; TMIDs in a leap-second-free range; astropy's parsing of the TMID string trusted",
         "technique": "property-based testing: grammar-based text generation + exact-rational oracle; repeatability check for hidden state",
     },
+    "C09": {
+        "text": "Differential testing of an operation catalogue (26 public operations: slices, selections, time/frequency shifts, snippet, fast_len, "
+                "concatenation, both dedispersions, polarisation conversions, STFT/ISTFT, ufunc expressions, signal_transform, like, container helpers) "
+                "on generated signals whose Dask data is chunked per axis (whole, size-1, uneven; time axis whole or split) against the NumPy-backed "
+                "twin: class, metadata, shape, dtype, values; result Dask-backed; laziness via a counting sentinel producer; synchronous, threaded and "
+                "multiprocess schedulers; several results computed in one dask.compute call (task-key collisions). Exploration.",
+        "ref": "DESIGN.md section 4 C09",
+        "note": "dask.distributed is not installed; FFT-based operations may refuse a chunked transformed axis (by raising); FFT values within 8 eps (1+log2 N) max|x|",
+        "technique": "property-based testing: differential (Dask vs NumPy twin) over a generated operation x chunking x scheduler space; joint-compute histories",
+    },
     "C10": {
         "text": "Generated signals of every class split at generated cut points along time (repeated/end cuts, empty pieces, any pattern of pieces without "
                 "start time) and along frequency (all alignments, odd pieces of even bands), re-joined flat and in three groupings (associativity) with the "
